@@ -34,8 +34,12 @@ def vinfo(name, kind):
 
 
 class RGen:
-    def __init__(self, tape):
+    def __init__(self, tape, gen=1):
         self.t = tape
+        self.gen = gen  # generator version: stored replay cases (no "gen" field) keep decoding with version 1
+        # version 2: the default-domain opset varies (the op set used is valid from 18 on; Cast, Identity, If, Loop and
+        # Constant have newer schema versions with other attribute sets at 19 and 21)
+        self.opset = [18, 18, 19, 21][tape.pick(4)] if gen >= 2 else OPSET
         self.n = 0
         self.features = set()
         self.bn = 0
@@ -107,6 +111,13 @@ class RGen:
                 ins.pop()
             nodes.append(oh.make_node("Clip", ins, [out], name=self.nname("Clip")))
             self.features.add("optional_input")
+            if self.gen >= 2 and bool(lo) != bool(hi) and t.pick(2):
+                # twin with the same present inputs but the omitted optional input in the other slot: Clip(x, c) / Clip(x, "", c)
+                out2 = self.fresh()
+                nodes.append(oh.make_node("Clip", [a, hi or "", lo or ""] if hi else [a, "", lo], [out2], name=self.nname("Clip")))
+                self.features.add("duplicate_differs_in_optional_slot")
+                self.features.add("duplicate_subexpression")
+                return [(out, "F23"), (out2, "F23")]
             return [(out, "F23")]
         if k == 8:
             cat = self.fresh()
@@ -164,6 +175,13 @@ class RGen:
             elif change == 2 and len(dup.input) >= 2 and src.op_type in ("Add", "Mul", "Sub"):
                 i0, i1 = dup.input[0], dup.input[1]
                 dup.input[0], dup.input[1] = i1, i0
+            elif change in (1, 3) and src.op_type == "Clip" and len(dup.input) >= 2:
+                # same present inputs, but the omitted optional input sits in the other slot: Clip(x, c) vs Clip(x, "", c)
+                ins3 = (list(dup.input) + ["", ""])[:3]
+                if bool(ins3[1]) != bool(ins3[2]):
+                    del dup.input[:]
+                    dup.input.extend([ins3[0], ins3[2], ins3[1]] if ins3[1] else [ins3[0], ins3[2]])
+                    self.features.add("duplicate_differs_in_optional_slot")
             nodes.append(dup)
             self.features.add("duplicate_subexpression")
             kinds = [k_ for v, k_ in pool if v in src.output]
@@ -290,7 +308,7 @@ class RGen:
             ra = c.attribute.add()
             ra.name, ra.ref_attr_name, ra.type = "value_float", "alpha", onnx.AttributeProto.FLOAT
             f0 = oh.make_function("local", "f0", ["x"], ["y"], [c, oh.make_node("Mul", ["x", "k"], ["y"], name="fm")],
-                                  [oh.make_opsetid("", OPSET)], attribute_protos=[oh.make_attribute("alpha", 1.5)])
+                                  [oh.make_opsetid("", self.opset)], attribute_protos=[oh.make_attribute("alpha", 1.5)])
             self.functions["f0"] = f0
             self.fn_sigs["f0"] = (1, [("alpha", "f", True)])
         if nf >= 2:
@@ -299,14 +317,14 @@ class RGen:
             ra = s.attribute.add()
             ra.name, ra.ref_attr_name, ra.type = "axis", "axis", onnx.AttributeProto.INT
             f1 = oh.make_function("local", "f1", ["x", "y"], ["o"], [oh.make_node("Add", ["x", "y"], ["s"], name="fa"), s],
-                                  [oh.make_opsetid("", OPSET)], attributes=["axis"])
+                                  [oh.make_opsetid("", self.opset)], attributes=["axis"])
             self.functions["f1"] = f1
             self.fn_sigs["f1"] = (2, [("axis", "i", False)])
         if nf >= 3:
             # f2(x) = f0(f0(x, alpha=2.0))   nested calls, inner call without the attribute -> default
             inner1 = oh.make_node("f0", ["x"], ["t"], domain="local", alpha=2.0, name="c1")
             inner2 = oh.make_node("f0", ["t"], ["y"], domain="local", name="c2")
-            f2 = oh.make_function("local", "f2", ["x"], ["y"], [inner1, inner2], [oh.make_opsetid("", OPSET), oh.make_opsetid("local", 1)])
+            f2 = oh.make_function("local", "f2", ["x"], ["y"], [inner1, inner2], [oh.make_opsetid("", self.opset), oh.make_opsetid("local", 1)])
             self.functions["f2"] = f2
             self.fn_sigs["f2"] = (1, [])
             self.features.add("nested_function")
@@ -384,7 +402,7 @@ class RGen:
             nodes.append(oh.make_node("Identity", ["x0"], ["only_out"], name="last"))
             outs.append(vinfo("only_out", "F23"))
         g = oh.make_graph(nodes, "main", inputs, outs, initializer=inits + self.extra_inits)
-        opsets = [oh.make_opsetid("", OPSET)]
+        opsets = [oh.make_opsetid("", self.opset)]
         if self.functions:
             opsets.append(oh.make_opsetid("local", 1))
         if t.flag("unused_opset", 5):
@@ -393,10 +411,12 @@ class RGen:
         return m
 
 
-def build(ints):
+def build(ints, gen=1):
     tape = Tape(ints)
-    g = RGen(tape)
+    g = RGen(tape, gen)
     m = g.model()
+    if g.opset != OPSET:
+        g.features.add(f"opset{g.opset}")
     return m, g.features
 
 
